@@ -42,7 +42,8 @@ theorem c18_effect_needs_role (ep : Endpoint) (l : Line)
   | notJson => simp [step, Reply.carriesData] at h
   | notRequest => simp [step, Reply.carriesData] at h
 
-/-- The same for whole histories (any interleaving of lines and clock ticks): every output that shows an
+/-- The same for whole histories (any interleaving of lines, clock ticks and runtime restarts that re-open
+the pairing store from its file): every output that shows an
 effect or carries data belongs to a request that had a sufficient role in the state it arrived in. -/
 theorem c18_history_effect_needs_role (evs : List Event) (ep : Endpoint) :
     ∀ o ∈ (run ep evs).2, (o.fx ≠ [] ∨ o.reply.carriesData = true) →
@@ -54,6 +55,9 @@ theorem c18_history_effect_needs_role (evs : List Event) (ep : Endpoint) :
     intro o ho hfx
     cases e with
     | tick dt =>
+      simp only [run, stepEvent, Option.toList, List.nil_append] at ho
+      exact ih _ o ho hfx
+    | reload =>
       simp only [run, stepEvent, Option.toList, List.nil_append] at ho
       exact ih _ o ho hfx
     | line l =>
@@ -107,35 +111,56 @@ theorem c18_unauth_silent (ep : Endpoint) (t : String) (_htok : ep.authToken = s
     · rw [hcred] at hc; cases hc
   · rw [hcred] at hc; cases hc
 
+/-- **A restart changes no credential**: re-opening the pairing store from its file keeps what every
+credential maps to (a revoked or expired token stays refused, a live one keeps its role) and keeps the
+pairing list; only a pending pairing code is lost. -/
+theorem c18_reload_preserves_credentials (ep : Endpoint) (auth : Option String) :
+    credentialRole ep.reload auth = credentialRole ep auth ∧ ep.reload.pairingView = ep.pairingView ∧
+    ep.reload.authToken = ep.authToken ∧ ep.reload.debugEnabled = ep.debugEnabled :=
+  ⟨credentialRole_reload ep auth, pairingView_reload ep, rfl, rfl⟩
+
 /-- Over any history: while a token is configured, lines that are malformed or carry no valid credential
-— however many, interleaved with any passage of time — never change a probe, never receive data, and
-leave the endpoint exactly as time alone would have. -/
+— however many, interleaved with any passage of time and any number of restarts — never change a probe,
+never receive data, and leave the endpoint exactly where the environment's events alone (`envOnly`:
+the ticks and reloads of the same history, without a single line) would have left it. -/
 theorem c18_history_unauth_silent (ep : Endpoint) (t : String) (htok : ep.authToken = some t)
     (evs : List Event)
     (h : ∀ e ∈ evs, ∀ r, e = .line (.request r) → credentialRole ep r.auth = none) :
-    (run ep evs).1.pruned = ({ ep with now := ep.now + ticks evs } : Endpoint).pruned ∧
+    (run ep evs).1.pruned = (run ep (envOnly evs)).1.pruned ∧
     ∀ o ∈ (run ep evs).2, o.fx = [] ∧ o.reply.carriesData = false := by
-  suffices H : ∀ (evs : List Event) (cur : Endpoint), ep.now ≤ cur.now →
-      cur.pruned = ({ ep with now := cur.now } : Endpoint).pruned →
-      (∀ e ∈ evs, ∀ r, e = .line (.request r) → credentialRole ep r.auth = none) →
-      (run cur evs).1.pruned = ({ ep with now := cur.now + ticks evs } : Endpoint).pruned ∧
+  suffices H : ∀ (evs : List Event) (cur cur' : Endpoint), cur.pruned = cur'.pruned →
+      cur'.authToken = some t →
+      (∀ e ∈ evs, ∀ r, e = .line (.request r) → credentialRole cur' r.auth = none) →
+      (run cur evs).1.pruned = (run cur' (envOnly evs)).1.pruned ∧
       ∀ o ∈ (run cur evs).2, o.fx = [] ∧ o.reply.carriesData = false by
-    exact H evs ep (Nat.le_refl _) rfl h
+    exact H evs ep ep rfl htok h
   intro evs
   induction evs with
   | nil =>
-    intro cur _ hinv _
-    simpa [run, ticks] using hinv
+    intro cur cur' hinv _ _
+    simpa [run, envOnly] using hinv
   | cons e es ih =>
-    intro cur hle hinv hun
-    have hun' : ∀ e ∈ es, ∀ r, e = .line (.request r) → credentialRole ep r.auth = none :=
+    intro cur cur' hinv htok' hun
+    have hun' : ∀ e ∈ es, ∀ r, e = .line (.request r) → credentialRole cur' r.auth = none :=
       fun e he => hun e (List.mem_cons_of_mem _ he)
+    have hnow : cur.now = cur'.now := by
+      have := congrArg Endpoint.now hinv
+      simpa [pruned_now] using this
     cases e with
     | tick dt =>
       have hinv' := pruned_later hinv (cur.now + dt) (Nat.le_add_right _ _)
-      have := ih { cur with now := cur.now + dt } (by simp only; omega) hinv' hun'
-      simp only [run, stepEvent, Option.toList, List.nil_append, ticks]
-      simpa [Nat.add_assoc] using this
+      have hun'' : ∀ e ∈ es, ∀ r, e = .line (.request r) →
+          credentialRole { cur' with now := cur'.now + dt } r.auth = none :=
+        fun e he r hr =>
+          credentialRole_none_later cur' t htok' r.auth (hun' e he r hr) _ (Nat.le_add_right _ _)
+      have := ih { cur with now := cur.now + dt } { cur' with now := cur'.now + dt }
+        (by rw [← hnow]; exact hinv') htok' hun''
+      simpa [run, stepEvent, envOnly] using this
+    | reload =>
+      have hun'' : ∀ e ∈ es, ∀ r, e = .line (.request r) → credentialRole cur'.reload r.auth = none :=
+        fun e he r hr => by rw [credentialRole_reload]; exact hun' e he r hr
+      have := ih cur.reload cur'.reload (reload_pruned_congr hinv) htok' hun''
+      simpa [run, stepEvent, envOnly] using this
     | line l =>
       -- the step is silent and keeps `pruned`
       have hstep : (step cur l).1.pruned = cur.pruned ∧ (step cur l).2.fx = [] ∧
@@ -144,23 +169,16 @@ theorem c18_history_unauth_silent (ep : Endpoint) (t : String) (htok : ep.authTo
         | request r =>
           have hnone : credentialRole cur r.auth = none := by
             rw [credentialRole_congr hinv]
-            exact credentialRole_none_later ep t htok r.auth (hun _ (List.mem_cons_self ..) r rfl) _ hle
+            exact hun _ (List.mem_cons_self ..) r rfl
           rcases handleRequest_cases cur r with ⟨⟨h1, h2, h3⟩, _⟩ | ⟨role, _, _, hc, _⟩
           · exact ⟨h3, h1, h2⟩
           · rw [hnone] at hc; cases hc
         | notJson => exact ⟨rfl, rfl, rfl⟩
         | notRequest => exact ⟨rfl, rfl, rfl⟩
       obtain ⟨hp, hfx, hcd⟩ := hstep
-      have hnow : (step cur l).1.now = cur.now := by
-        have := congrArg Endpoint.now hp
-        simpa [pruned_now] using this
-      have hinv' : (step cur l).1.pruned =
-          ({ ep with now := (step cur l).1.now } : Endpoint).pruned := by
-        rw [hp, hnow]; exact hinv
-      have := ih (step cur l).1 (by omega) hinv' hun'
-      simp only [run, stepEvent, Option.toList, List.cons_append, List.nil_append, ticks,
+      have := ih (step cur l).1 cur' (hp.trans hinv) htok' hun'
+      simp only [run, stepEvent, Option.toList, List.cons_append, List.nil_append, envOnly,
         List.mem_cons]
-      rw [hnow] at this
       refine ⟨this.1, ?_⟩
       rintro o (rfl | ho)
       · exact ⟨hfx, hcd⟩
